@@ -752,6 +752,50 @@ func run[V any](r *engine.Rec, c *cfg[V], maxN int) {
 				}
 			}
 		}
+		// the operand sequence of this call stays the caller's: the call leaves it as it was, and changing it
+		// afterwards (or changing the receiver) does not show through on the other side (obj is rebuilt per step)
+		if op.S != 3 && len(content) > 0 {
+			if !eqSlices(opnd.AsArray(), content) {
+				return viol(class+" changes its operand sequence", fmt.Sprintf("operand %v want %v", opnd.AsArray(), content))
+			}
+			other := func(v V) V {
+				for _, a := range c.alpha {
+					if !reflect.DeepEqual(a, v) {
+						return a
+					}
+				}
+				return v
+			}
+			wantOp := append([]V(nil), content...)
+			if up, isUp := opnd.(col.Updatable[V]); isUp {
+				wantOp[0] = other(content[0])
+				up.SetValue(1, wantOp[0])
+				if so, isSo := opnd.(col.Sortable[V]); isSo {
+					so.ReverseValues()
+					for i, j := 0, len(wantOp)-1; i < j; i, j = i+1, j-1 {
+						wantOp[i], wantOp[j] = wantOp[j], wantOp[i]
+					}
+				}
+				if !eqSlices(obj.AsArray(), exp.state) {
+					return viol(class+": changing the operand sequence afterwards changes the receiver (shared storage)", fmt.Sprintf("got %v want %v", obj.AsArray(), exp.state))
+				}
+			}
+			if len(exp.state) > 0 {
+				wantObj := append([]V(nil), exp.state...)
+				wantObj[len(wantObj)-1] = other(wantObj[len(wantObj)-1])
+				obj.SetValue(-1, wantObj[len(wantObj)-1])
+				obj.ReverseValues()
+				for i, j := 0, len(wantObj)-1; i < j; i, j = i+1, j-1 {
+					wantObj[i], wantObj[j] = wantObj[j], wantObj[i]
+				}
+				if !eqSlices(opnd.AsArray(), wantOp) {
+					return viol(class+": changing the receiver afterwards changes the operand sequence (shared storage)", fmt.Sprintf("operand %v want %v", opnd.AsArray(), wantOp))
+				}
+				if !eqSlices(obj.AsArray(), wantObj) {
+					return viol(class+": after the operand sequence was changed the receiver does not follow its own operations", fmt.Sprintf("got %v want %v", obj.AsArray(), wantObj))
+				}
+			}
+		}
 		for gi, g := range guards {
 			if !eqSlices(g.seq.AsArray(), g.want) {
 				return viol(class+" changes an operand of the constructor "+path[0].K+" (shared storage)", fmt.Sprintf("operand %d: %v want %v", gi, g.seq.AsArray(), g.want))
